@@ -129,8 +129,9 @@ class Expansion(Harness):
     def run(self, g, case):
         mbase = {"class": "Market", "tickSize": 1, "marketPrice": 300}
         abase = {"class": "ScriptedAgent", "markets": ["G1"], "assetVolume": 50, "cashAmount": 10000}
-        st = {"simulation": {"markets": ["G1", "G2"], "agents": ["A"], "sessions": [rn.session(0, 1)]},
-              "G1": dict(mbase), "G2": dict(mbase, numMarkets=2), "A": dict(abase)}
+        st = {"simulation": {"markets": ["G1", "G2", "G3"], "agents": ["A", "B"], "sessions": [rn.session(0, 1)]},
+              "G1": dict(mbase), "G2": dict(mbase, numMarkets=2), "G3": dict(mbase), "A": dict(abase),
+              "B": dict(abase)}      # G3 and B declare neither a count nor a range: exactly one entity each
         if case["what"] == "markets":
             st["G1"] = self._group(case["kind"], case["n"], case["off"], case["prefix"], mbase)
             n_expected = case["n"]
@@ -154,6 +155,9 @@ class Expansion(Harness):
             return
         sim = ctx.sim
         g.require(st == before, "C18.settings-modified")
+        g.require(len(sim.markets_group_name2market["G3"]) == 1 and len(sim.agents_group_name2agent["B"]) == 1,
+                  "C18.group-size", "a group declaring neither a count nor a range must create exactly one entity")
+        g.require(len(sim.markets_group_name2market["G2"]) == 2, "C18.group-size")
         grp = sim.markets_group_name2market["G1"] if case["what"] != "agents" else sim.agents_group_name2agent["A"]
         if case["what"] == "markets":
             g.require(len(grp) == n_expected, "C18.group-size", f"{len(grp)} markets created, {n_expected} declared")
@@ -171,7 +175,7 @@ class Expansion(Harness):
             g.require(len(set(names)) == len(names), "C18.duplicate-names")
         else:
             want = sorted(m.market_id for gname in case["lists"] for m in sim.markets_group_name2market[gname])
-            for a in sim.agents:
+            for a in sim.agents_group_name2agent["A"]:
                 got = sorted(m.market_id for m in sim.markets if a.is_market_accessible(m.market_id))
                 g.require(got == want, "C18.accessible-markets", f"agent can access {got}, listed groups give {want}")
 
@@ -287,11 +291,17 @@ class LegacyKeys(Harness):
     reach = ("nontrivial", "both-spellings-rejected")
     agreement_runs = 4
 
+    def cases(self, tier):
+        return [{"zeros": False}, {"zeros": True}]
+
     def run(self, g, case):
         st = {"sessionName": 0, "iterationSteps": 3, "withOrderPlacement": True, "withOrderExecution": True,
               "withPrint": False}
         vals = {"maxHighFrequencyOrders": 5, "maxHifreqOrders": 6, "highFrequencySubmitRate": 0.25,
                 "hifreqSubmitRate": 0.75}
+        if case.get("zeros"):      # switching high-frequency agents off is a legal setting
+            vals = {"maxHighFrequencyOrders": 0, "maxHifreqOrders": 0, "highFrequencySubmitRate": 0.0,
+                    "hifreqSubmitRate": 0.0}
         has = {k: g.boolean(f"has_{k}") for k in vals}
         for k, v in vals.items():
             if has[k]:
@@ -322,6 +332,13 @@ class LegacyKeys(Harness):
             g.note("nontrivial")
         r = fresh()
         r.setup(st2)
+        # ... and the replacement spelling sets exactly the configured value
+        if "maxHighFrequencyOrders" in st2:
+            g.require(r.max_high_frequency_orders == st2["maxHighFrequencyOrders"], "C18.session-key-value-lost",
+                      f"maxHighFrequencyOrders={st2['maxHighFrequencyOrders']} gives {r.max_high_frequency_orders}")
+        if "highFrequencySubmitRate" in st2:
+            g.require(r.high_frequency_submission_rate == st2["highFrequencySubmitRate"], "C18.session-key-value-lost",
+                      f"highFrequencySubmitRate={st2['highFrequencySubmitRate']} gives {r.high_frequency_submission_rate}")
         g.require(s.max_high_frequency_orders == r.max_high_frequency_orders, "C18.legacy-key-sets-other-parameter",
                   f"max_high_frequency_orders={s.max_high_frequency_orders}, replacement spelling gives {r.max_high_frequency_orders}")
         g.require(s.high_frequency_submission_rate == r.high_frequency_submission_rate,
